@@ -376,7 +376,7 @@ fn run(seed: u64, quick: bool, threads: usize) -> Report {
     });
     rep.extra.insert(
         "repo".into(),
-        json!(option_env!("VERIF_REPO").unwrap_or("/repo")),
+        json!(option_env!("VERIF_REPO").unwrap_or("/repo/")),
     );
     rep
 }
